@@ -166,6 +166,9 @@ func c13ParseDump(b []byte) []c13GInfo {
 			}
 			gi.state = st
 		}
+		if c13IsLeaked(gi.gid) {
+			continue
+		}
 		gi.kind = c13BlockKind(gi.state, blk)
 		gi.blocked = gi.kind != ""
 		res = append(res, gi)
@@ -230,7 +233,12 @@ func (s *c13Sched) arrive(step string, key int) error {
 		s.mu.Unlock()
 		return nil
 	}
-	p := &c13Park{gid: c13GID(), step: step, key: key, seq: s.seq, wake: make(chan error)}
+	gid := c13GID()
+	if c13IsLeaked(gid) {
+		s.mu.Unlock()
+		return nil
+	}
+	p := &c13Park{gid: gid, step: step, key: key, seq: s.seq, wake: make(chan error)}
 	s.seq++
 	s.parked[p.gid] = p
 	s.arrivals = append(s.arrivals, p)
@@ -307,6 +315,18 @@ type c13Chooser func(step int, parked []*c13G) int
 
 var c13Mu sync.Mutex // one controlled run at a time per process (graph.VerifYield is a package variable)
 
+// goroutines of an earlier run that never finished (the real code deadlocked): ignored from then on
+var (
+	c13LeakMu sync.Mutex
+	c13Leaked = map[int64]bool{}
+)
+
+func c13IsLeaked(gid int64) bool {
+	c13LeakMu.Lock()
+	defer c13LeakMu.Unlock()
+	return c13Leaked[gid]
+}
+
 func c13RunOne(g c13Graph, errAt map[int]bool, choose c13Chooser, maxSteps int) *c13Run {
 	c13Mu.Lock()
 	defer c13Mu.Unlock()
@@ -341,14 +361,24 @@ func c13RunOne(g c13Graph, errAt map[int]bool, choose c13Chooser, maxSteps int) 
 			}
 			p.wake <- err
 		}
-		dl := time.Now().Add(3 * time.Second)
+		wait := 2 * time.Second
+		if run.Deadlock || run.Stuck != "" {
+			wait = 100 * time.Millisecond // already known to be wedged
+		}
+		dl := time.Now().Add(wait)
+		var left []c13GInfo
 		for time.Now().Before(dl) {
-			if len(c13Dump(&buf)) == 0 {
+			if left = c13Dump(&buf); len(left) == 0 {
 				return
 			}
 			time.Sleep(200 * time.Microsecond)
 		}
-		if run.Stuck == "" {
+		c13LeakMu.Lock()
+		for _, gi := range left {
+			c13Leaked[gi.gid] = true
+		}
+		c13LeakMu.Unlock()
+		if run.Stuck == "" && !run.Deadlock {
 			run.Stuck = "cleanup: traversal goroutines never finished"
 		}
 	}
